@@ -138,7 +138,18 @@ def gen_case(rng, tier):
 
 def generate(rng, tier):
     n = 90 if tier == "quick" else 1200
-    return [gen_case(rng, tier) for _ in range(n)]
+    cases = [gen_case(rng, tier) for _ in range(n)]
+    # always present: ProtoGreedy asked for more prototypes than there are clusters (near-duplicates of selected prototypes
+    # are candidates: the unconstrained weights K^-1 mu have negative entries, the clamp w = max(w, 0) is active)
+    found = 0
+    for _ in range(600):
+        if found >= 4:
+            break
+        c = gen_case(rng, tier)
+        if c["method"] == "greedy" and c["kind"] == "clustered" and c["np"] >= 3 and c.get("kernel") is None:
+            cases.append(c)
+            found += 1
+    return cases
 
 
 def eff_bs(case, key="bs"):
